@@ -484,7 +484,7 @@ def main():
         "a plain write onto an existing file must raise and leave the file byte-identical",
         "h5py/PyTables/astropy I/O are trusted at the byte level",
     ]
-    return chk.finish()
+    return chk.finish(run_case)
 
 
 def replay(doc):
